@@ -18,6 +18,10 @@ pub struct VariableDeclaration {
 }
 
 impl VariableDeclaration {
+    /// True if this is a `!default` declaration of the variable `name`.
+    pub(crate) fn is_default_of(&self, name: &Name) -> bool {
+        self.default && &self.name == name
+    }
     /// Execute this variable declaration into a scope.
     pub fn evaluate(&self, scope: &ScopeRef) -> Result<(), Error> {
         let val = self.val.evaluate(scope.clone())?;
